@@ -97,7 +97,7 @@ unsigned MessageBase::decode(const f8String& from, unsigned s_offset, unsigned i
 
 	for (unsigned result; s_offset <= fsize && (result = extract_element(dptr + s_offset, fsize - s_offset, tag, val));)
 	{
-		unsigned short tv(fast_atoi<unsigned short>(tag));
+		unsigned short tv(tag_to_fnum(tag));
 		Presence::const_iterator itr(_fp.get_presence().find(tv));
 		if (itr == _fp.get_presence().end())
 		{
@@ -137,9 +137,7 @@ unknown_field:
 				break;
 
 			// ...but only when the data field actually follows; a Length typed field can also stand alone (e.g. MaxMessageSize)
-			unsigned short ntv(0);
-			for (const char *np(dptr + s_offset); np < dptr + fsize && isdigit(*np); ++np)
-				ntv = ntv * 10 + (*np - '0');
+			const unsigned short ntv(tag_to_fnum(dptr + s_offset, dptr + fsize));
 			Presence::const_iterator nitr(_fp.get_presence().find(ntv));
 			if (nitr == _fp.get_presence().end() || nitr->_ftype != FieldTrait::ft_data)
 				break;
@@ -151,7 +149,7 @@ unknown_field:
 			if (!result)
 				throw MissingMandatoryField("Unable to extract fixed width field");
 
-			tv = fast_atoi<unsigned short>(tag);
+			tv = tag_to_fnum(tag);
 			if ((itr = _fp.get_presence().find(tv)) == _fp.get_presence().end())
 				goto unknown_field;
 			if (itr->_ftype != FieldTrait::ft_data) // next field must be data (its tag need not be length tag + 1, e.g. 93/89)
@@ -190,7 +188,7 @@ unsigned MessageBase::decode_group(GroupBase *grpbase, const unsigned short fnum
 
 		for (unsigned pos(0); s_offset < fsize && (result = extract_element(dptr + s_offset, fsize - s_offset, tag, val));)
 		{
-			const unsigned tv(fast_atoi<unsigned>(tag));
+			const unsigned short tv(tag_to_fnum(tag));
 			Presence::const_iterator itr(grp->_fp.get_presence().end());
 			if (grp->_fp.get(tv, itr, FieldTrait::present))	// already present; next group?
 				break;
@@ -208,9 +206,7 @@ unsigned MessageBase::decode_group(GroupBase *grpbase, const unsigned short fnum
 			grp->_fp.set(tv, itr, FieldTrait::present);	// is present
 			if (itr->_ftype == FieldTrait::ft_Length)	// as in decode(): a following data field is read by this length
 			{
-				unsigned short ntv(0);
-				for (const char *np(dptr + s_offset); np < dptr + fsize && isdigit(*np); ++np)
-					ntv = ntv * 10 + (*np - '0');
+				const unsigned short ntv(tag_to_fnum(dptr + s_offset, dptr + fsize));
 				Presence::const_iterator nitr(grp->_fp.get_presence().find(ntv));
 				const BaseEntry *dbe(nitr != grp->_fp.get_presence().end() && nitr->_ftype == FieldTrait::ft_data
 					&& !nitr->_field_traits.has(FieldTrait::present) ? _ctx.find_be(ntv) : nullptr);
